@@ -228,6 +228,38 @@ Proof. intros Hz. cbn [okn_of]. unfold U64_MAX in *. lia. Qed.
 Lemma okn_of_neg okf z : I64_MIN <= z < 0 -> okn_of okf (JNegInt z) = true.
 Proof. intros Hz. cbn [okn_of]. unfold I64_MIN in *. lia. Qed.
 
+(* the canonical form has a reserved object exactly where the built Value has one: jcanon only
+   rewrites numbers (and resolves duplicate keys the way sj_build does) *)
+Lemma jstr_of_jcanon y : jstr_of (jcanon y) = jstr_of y.
+Proof. now destruct y. Qed.
+Lemma jstr_of_sj_build y : jstr_of (sj_build y) = jstr_of y.
+Proof. now destruct y. Qed.
+Lemma reserved_obj_collect pfs (g : json -> json) m :
+  (forall y, jstr_of (g y) = jstr_of y) ->
+  reserved_obj pfs jstr_of (bmap_collect (mapv g m)) = reserved_obj pfs jstr_of (bmap_collect m).
+Proof.
+  intros Hg. unfold reserved_obj. rewrite !rec_get_bmap_collect, get_last_mapv.
+  destruct (get_last m FN_KEY) as [y|]; cbn [option_map]; [now rewrite Hg|reflexivity].
+Qed.
+Lemma forallb_map' {A B} (f : A -> B) (p : B -> bool) l : forallb p (map f l) = forallb (fun x => p (f x)) l.
+Proof. induction l as [|a l IH]; cbn; [reflexivity|now rewrite IH]. Qed.
+Lemma json_no_reserved_jcanon pfs : forall d,
+  json_no_reserved pfs (jcanon d) = json_no_reserved pfs (sj_build d).
+Proof.
+  induction d as [| |n|s|l IH|m IH] using json_ind'; try reflexivity.
+  - cbn [jcanon sj_build json_no_reserved]. rewrite !forallb_map'. apply forallb_ext_in'.
+    rewrite Forall_forall in IH. exact IH.
+  - rewrite jcanon_obj, sj_build_obj. cbn [json_no_reserved].
+    rewrite (reserved_obj_collect pfs jcanon m jstr_of_jcanon), (reserved_obj_collect pfs sj_build m jstr_of_sj_build).
+    f_equal. rewrite !bmap_collect_mapv. unfold mapv. rewrite !forallb_map'. apply forallb_ext_in'.
+    intros [k x] Hx. cbn [snd]. apply bmap_collect_in in Hx. rewrite Forall_forall in IH. apply (IH (k, x) Hx).
+Qed.
+Lemma json_no_reserved_build_jcanon pfs d :
+  json_no_reserved pfs (sj_build (jcanon d)) = json_no_reserved pfs (sj_build d).
+Proof. now rewrite <- (json_no_reserved_jcanon pfs (jcanon d)), jcanon_idem, json_no_reserved_jcanon. Qed.
+Lemma jlookup_single name (v : json) : jlookup [(name, v)] name = Some v.
+Proof. cbn. now rewrite String.eqb_refl. Qed.
+
 (* ------------------------------------------------------------------ parse-print-parse, echo on text *)
 Section TextEchoProofs.
   Variable pfs : string -> option (list lamarg * string).
@@ -329,6 +361,26 @@ Section TextEchoProofs.
     rewrite (cli_echo_non_object_parsed pfs pbody emit nameof float_of_tok fot_finite_of_class s d name Hs Hno Hr).
     cbn [obind]. split; [reflexivity|]. split; [|apply jcanon_idem].
     apply echo_output_reads_back; [|exact Hd]. exact (proj1 (parsed_okn s d Hs)).
+  Qed.
+
+  (* the output of the echo program is a FIXED POINT: fed back as the input of
+     `output <name> = inputs.<name>` it is reproduced byte for byte (output -> JSON -> input
+     unchanged, at the level of the bytes written) *)
+  Theorem cli_text_echo_fixed_point s m key name x :
+    json_from_str float_of_tok s = Some (JObj m) ->
+    forallb (fun kv => json_no_reserved pfs (sj_build (snd kv))) m = true ->
+    jlookup m key = Some x ->
+    let out := jprint fmt_pieces (JObj [(name, jcanon x)]) in
+    cli_text_echo pfs pbody emit nameof fmt_pieces float_of_tok s key name = Ok out /\
+    cli_text_echo pfs pbody emit nameof fmt_pieces float_of_tok out name name = Ok out.
+  Proof.
+    intros Hs Hr Hx out.
+    destruct (cli_text_echo_object s m key name x Hs Hr Hx) as (H1 & H2 & _). split; [exact H1|].
+    destruct (cli_text_echo_object out [(name, jcanon x)] name name (jcanon x) H2) as (H3 & _).
+    - cbn [forallb snd]. rewrite json_no_reserved_build_jcanon, andb_true_r.
+      rewrite forallb_forall in Hr. exact (Hr (key, x) (jlookup_In m key x Hx)).
+    - apply jlookup_single.
+    - rewrite H3. unfold out. now rewrite jcanon_idem.
   Qed.
 
   (* the first sentence of the property on text, for the class: value -> text -> second run *)
